@@ -103,6 +103,12 @@ func genResult(r *rand.Rand, id int, bodyMax int) vegeta.Result {
 		Latency:   time.Duration(r.Int63()), BytesOut: r.Uint64(), BytesIn: r.Uint64(),
 		Error: genText(r, 20), Method: []string{"GET", "POST", "X-" + genText(r, 3)}[r.Intn(3)], URL: "http://h/" + genText(r, 15),
 	}
+	switch r.Intn(4) { // the same instant may be held in any zone (a result is identified by its instant)
+	case 0:
+		res.Timestamp = res.Timestamp.In(time.FixedZone("", (r.Intn(27)-12)*3600+[]int{0, 1800, 2700}[r.Intn(3)]))
+	case 1:
+		res.Timestamp = res.Timestamp.UTC()
+	}
 	switch r.Intn(8) {
 	case 0:
 		res.Seq = ^uint64(0)
@@ -133,8 +139,15 @@ func genResult(r *rand.Rand, id int, bodyMax int) vegeta.Result {
 		res.Headers = http.Header{}
 	default:
 		res.Headers = http.Header{}
-		for k := 0; k < 1+r.Intn(3); k++ {
+		nk := 1 + r.Intn(3)
+		if r.Intn(12) == 0 {
+			nk = 20 + r.Intn(30) // many header keys
+		}
+		for k := 0; k < nk; k++ {
 			key := http.CanonicalHeaderKey([]string{"content-type", "x-a", "set-cookie", "etag", "x-long-header-name"}[r.Intn(5)])
+			if nk > 3 {
+				key = fmt.Sprintf("X-H%d", r.Intn(60))
+			}
 			for v := 0; v < 1+r.Intn(3); v++ {
 				res.Headers[key] = append(res.Headers[key], genHeaderValue(r))
 			}
@@ -784,6 +797,9 @@ func TestDrv_C13(t *testing.T) {
 	var jobs []cmdJob
 	for s := 0; s < splits; s++ {
 		k := 1 + r.Intn(6)
+		if s%9 == 4 {
+			k = 12 + r.Intn(20) // many files
+		}
 		lens := make([]int, k)
 		files := make([][]vegeta.Result, k)
 		encs := make([]string, k)
